@@ -78,8 +78,10 @@ def htslib_cases(ctx, work):
     rng = ctx.rng
     n = 24 if ctx.thorough else 6
     for k in range(n):
-        spec = vcfgen.simple_file(rng, nrec=rng.choice([1, 5, 40, 150]), ncontig=rng.choice([1, 2, 4]),
+        # k == 1: a header-only file (no record on any contig: empty name block, zero references)
+        spec = vcfgen.simple_file(rng, nrec=0 if k == 1 else rng.choice([1, 5, 40, 150]), ncontig=rng.choice([1, 2, 4]),
                                   long_refs=rng.random() < 0.5)
+        ctx.count("header_only_files" if not spec["records"] else "files_with_records")
         for kind in ("vcf.gz+tbi", "vcf.gz+csi", "bcf+csi"):
             ms = rng.choice([9, 12, 14, 14, 17, 20])
             path = vcfgen.materialise(spec, pathlib.Path(work) / f"h{k}", kind, block_size=rng.choice([300, 2000, 0xFF00]),
